@@ -9,7 +9,9 @@ An *episode script* is plain JSON-able data:
   * the last step of every episode must have term or trunc set; an episode ends exactly there
   * reset number k (k = 1, 2, ...) starts episode (k-1) mod len(episodes); a reset in the middle of
     an episode abandons it
-  * info dicts carry {"tag": info} plus anything in `extra_info`
+  * info dicts carry {"tag": info} plus anything in `extra_info`; an info / reset_info tag of -1 means
+    "the environment returns an EMPTY info dict" (gen_script emits it with probability p_empty_info,
+    default 0: harnesses that enable it must decode a missing "tag" as -1)
 The same semantics is written in Gallina in coq/Model/Script.v (env_reset / env_step).
 
 Every environment logs what it received: ("reset", seed, options) and ("step", action as nested list).
@@ -193,7 +195,7 @@ class ScriptedEnv(gym.Env):
         self.n_resets += 1
         self.pos = 0
         ep = self._episode()
-        info = {"tag": ep["reset_info"], **self.extra_info}
+        info = {} if ep["reset_info"] == -1 else {"tag": ep["reset_info"], **self.extra_info}
         return self._obs(ep["reset_tag"], ep.get("reset_goal")), info
 
     def step(self, action):
@@ -205,7 +207,7 @@ class ScriptedEnv(gym.Env):
         steps = self._episode()["steps"]
         st = steps[min(self.pos, len(steps) - 1)]
         self.pos += 1
-        info = {"tag": st["info"], **self.extra_info}
+        info = {} if st["info"] == -1 else {"tag": st["info"], **self.extra_info}
         if "is_success" in st:
             info["is_success"] = st["is_success"]
         return self._obs(st["tag"], st.get("goal")), st["r4"] / 4.0, bool(st["term"]), bool(st["trunc"]), info
@@ -217,7 +219,7 @@ class ScriptedEnv(gym.Env):
         return (a[..., 0] * 1000.0 + d[..., 0]).astype(np.float32) if a.ndim > 1 else np.float32(a[0] * 1000.0 + d[0])
 
 
-def gen_script(rng, n_episodes=None, max_len=6, tag_base=0, tag_cap=MAXTAG - 1, p_both=0.15, p_trunc=0.4):
+def gen_script(rng, n_episodes=None, max_len=6, tag_base=0, tag_cap=MAXTAG - 1, p_both=0.15, p_trunc=0.4, p_empty_info=0.0):
     """boundary-biased random script with unique tags tag_base+1.. (wrapping at tag_cap)"""
     n_episodes = n_episodes or rng.randint(1, 5)
     eps, t = [], tag_base
@@ -243,6 +245,13 @@ def gen_script(rng, n_episodes=None, max_len=6, tag_base=0, tag_cap=MAXTAG - 1, 
                     term = True
             steps.append({"tag": nxt(), "r4": rng.randint(-8, 8), "term": term, "trunc": trunc, "info": rng.randint(0, 999)})
         eps.append({"reset_tag": nxt(), "reset_info": rng.randint(0, 999), "steps": steps})
+    if p_empty_info > 0:  # drawn afterwards so that the default stream (p_empty_info=0) is unchanged
+        for e in eps:
+            if rng.random() < p_empty_info:
+                e["reset_info"] = -1
+            for st in e["steps"]:
+                if rng.random() < p_empty_info:
+                    st["info"] = -1
     return {"episodes": eps}
 
 
